@@ -148,6 +148,13 @@ func vfGenC01(r *vfRand, id int) *vfWorldCase {
 			if r.chance(1, 4) {
 				q.ClientIDs = []int{1 + r.intn(5)}
 			}
+			if r.chance(1, 3) { // what a proxy in front (or a client pretending to be one) says about the path: routing is by the URL only
+				if q.Headers == nil {
+					q.Headers = map[string]string{}
+				}
+				q.Headers[vfPick(r, "X-Forwarded-Prefix", "X-Forwarded-Prefix", "X-Forwarded-Uri", "X-Original-Url", "X-Rewrite-Url", "X-Forwarded-Path", "X-Envoy-Original-Path")] =
+					vfPick(r, "/public", "/health", "/health/", "/favicon", "/favicon.ico", "/static/", "/api/public/", "/assets/", vfCallbackPath, vfLogoutPath)
+			}
 			if r.chance(1, 2) {
 				q.Script = &vfTokenScript{Kind: vfPick(r, "ok", "ok", "invalid_grant", "server_error", "no_id_token"),
 					Spec: vfTokForState(r, vfPick(r, "valid", "valid", "bad_sig", "expired", "wrong_aud", "wrong_aud_azp")), Rotate: r.chance(1, 2)}
@@ -235,7 +242,7 @@ func vfGenC03(r *vfRand, id int) *vfWorldCase {
 		case 6: // callback with deviations
 			acts = append(acts, vfAction{Kind: "callback", Browser: b, Slot: slot,
 				StateMode: vfPick(r, "own", "stale", "foreign", "absent", "garbage"),
-				CodeMode:  vfPick(r, "own", "own", "absent", "garbage", "reused"), From: (b + 1) % nb,
+				CodeMode:  vfPick(r, "own", "own", "absent", "garbage", "reused", "foreign"), From: (b + 1) % nb,
 				Script: &vfTokenScript{Kind: vfPick(r, "ok", "ok", "invalid_grant", "server_error", "malformed", "no_id_token", "drop"),
 					Spec: vfPlainTok("user@example.com", 3600), NonceMode: vfPick(r, "", "", "other", "missing")}})
 		case 7: // provider error redirect
@@ -264,7 +271,18 @@ func vfCorpusC03() []*vfWorldCase {
 		return &vfWorldCase{Kind: "corpus", Script: vfScript{Cfg: vfWorldCfg{PKCE: true, EndSession: true, GraceSec: 60, ChallengeMethods: methods}, Browsers: 1,
 			Actions: append(vfLogin(0, 0, "/a", ok), vfGated(0, 0, "/a", 1))}}
 	}
-	return []*vfWorldCase{replay, adv([]string{"plain"}), adv([]string{"S256", "plain"}), adv([]string{})}
+	// somebody else's complete authorization response (state AND code, both unused) opened in a browser that holds no
+	// login cookie at all, in one that has a pending login of its own, and in one that is logged in
+	other := func(pkce bool, prep ...vfAction) *vfWorldCase {
+		acts := []vfAction{vfGated(0, 0, "/private", 1), {Kind: "authorize", Browser: 0}}
+		acts = append(acts, prep...)
+		acts = append(acts, vfAction{Kind: "callback", Browser: 1, StateMode: "foreign", CodeMode: "foreign", From: 0, Script: ok}, vfGated(1, 0, "/private", 1),
+			vfAction{Kind: "callback", Browser: 0, Script: ok}, vfGated(0, 0, "/private", 1))
+		return &vfWorldCase{Kind: "corpus", Script: vfScript{Cfg: vfWorldCfg{PKCE: pkce, EndSession: true, GraceSec: 60}, Browsers: 2, Actions: acts}}
+	}
+	lg := vfLogin(1, 0, "/mine", ok)
+	return []*vfWorldCase{replay, adv([]string{"plain"}), adv([]string{"S256", "plain"}), adv([]string{}),
+		other(false), other(true), other(true, vfGated(1, 0, "/mine", 1)), other(false, lg...)}
 }
 
 // ---------------------------------------------------------------- C04: an established session keeps working
@@ -298,6 +316,10 @@ func vfGenC04(r *vfRand, id int) *vfWorldCase {
 		spec.Pad = []int{30000, 32768, 33000, 48000, 70000}[r.intn(5)] // tens of kilobytes (compressible)
 	case 4:
 		spec.Extra = map[string]interface{}{"realm_access": map[string]interface{}{"roles": []interface{}{"a", "b"}}, "acr": "1", "amr": []interface{}{"pwd"}}
+	}
+	if r.chance(1, 4) { // group / role claims of every JSON shape providers emit (single string, null, objects ...)
+		spec.Groups = vfClaimShapes[r.intn(len(vfClaimShapes))]
+		spec.Roles = vfClaimShapes[r.intn(len(vfClaimShapes))]
 	}
 	sc := vfOkScript(spec)
 	if r.chance(1, 3) {
@@ -571,6 +593,19 @@ func vfGenC08(r *vfRand, id int) *vfWorldCase {
 			q.Script = &vfTokenScript{Kind: kind, Spec: spec, Rotate: r.chance(1, 2), SameToken: r.chance(1, 8), ForgeLast: kind == "ok" && r.chance(1, 6)}
 		}))
 	}
+	if r.chance(1, 3) {
+		// the same cookies presented twice: a request that refreshes, then (second tab, retry, restored browser session) the OLD
+		// cookies again -- each presentation is a refresh of its own, and the provider's answer to it decides
+		again := vfPick(r, "invalid_grant", "invalid_grant", "server_error", "ok", "drop")
+		acts = append(acts, vfAction{Kind: "mint", Browser: 0, Mint: &vfMintSpec{Auth: true, Email: "user@example.com", Tok: vfTokForState(r, vfPick(r, "near", "expired")), RefreshLen: 24}},
+			vfAction{Kind: "tamper", Browser: 0, Tamper: "snap"},
+			vfReqAct(0, 0, "GET", "/app", 1, func(q *vfReq) { q.Script = &vfTokenScript{Kind: "ok", Spec: vfPlainTok("user@example.com", 3600), Rotate: true} }),
+			vfAction{Kind: "tamper", Browser: 0, Tamper: "restore"},
+			vfReqAct(0, 0, "GET", "/app/again", 1, func(q *vfReq) {
+				q.AcceptJS = r.chance(1, 3)
+				q.Script = &vfTokenScript{Kind: again, Spec: vfPlainTok("other@example.com", 3600), Rotate: true}
+			}))
+	}
 	cs.Script.Actions = acts
 	return cs
 }
@@ -606,8 +641,18 @@ func vfCorpusC08() []*vfWorldCase {
 			vfReqAct(0, 0, "GET", "/app", 1, func(q *vfReq) { q.AcceptJS = js; q.Script = &vfTokenScript{Kind: "ok", Spec: sp, Rotate: true} }),
 			vfGated(0, 0, "/app", 1)}}}
 	}
+	twice := func(again string, js bool) *vfWorldCase {
+		return &vfWorldCase{Kind: "corpus", Script: vfScript{Cfg: cfg, Browsers: 1, Actions: []vfAction{
+			{Kind: "mint", Browser: 0, Mint: &vfMintSpec{Auth: true, Email: "alice@example.com", Tok: vfTokForState(nil, "near"), RefreshLen: 24}},
+			{Kind: "tamper", Browser: 0, Tamper: "snap"},
+			vfReqAct(0, 0, "GET", "/app", 1, func(q *vfReq) { q.Script = &vfTokenScript{Kind: "ok", Spec: near(), Rotate: true} }),
+			{Kind: "tamper", Browser: 0, Tamper: "restore"},
+			vfReqAct(0, 0, "GET", "/app", 1, func(q *vfReq) { q.AcceptJS = js; q.Script = &vfTokenScript{Kind: again, Spec: near(), Rotate: true} }),
+			vfGated(0, 0, "/app", 1)}}}
+	}
 	return []*vfWorldCase{mk("ok", false), mk("invalid_grant", false), mk("invalid_grant", true), mk("server_error", true),
-		mk("drop", false), mk("drop", true), forged, noMail(nil, false), noMail(nil, true), noMail("", false), noMail(42, true)}
+		mk("drop", false), mk("drop", true), forged, noMail(nil, false), noMail(nil, true), noMail("", false), noMail(42, true),
+		twice("invalid_grant", false), twice("invalid_grant", true), twice("ok", false), twice("server_error", false)}
 }
 
 // ---------------------------------------------------------------- C09 / C18: every cookie of every flow (flags)
@@ -796,7 +841,13 @@ func vfGenC10(r *vfRand, id int) *vfWorldCase {
 	acts := vfLogin(0, 0, "/app", vfOkScript(t))
 	first := true
 	for i := 1 + r.intn(4); i > 0; i-- {
-		acts = append(acts, vfReqAct(0, 0, vfPick(r, "GET", "POST"), "/app", 1, func(q *vfReq) {
+		acts = append(acts, vfReqAct(0, 0, vfPick(r, "GET", "GET", "POST", "OPTIONS", "OPTIONS", "HEAD", "PUT", "DELETE", "PATCH"), "/app", 1, func(q *vfReq) {
+			if r.chance(1, 3) { // cross-origin callers and their preflights: whatever is forwarded is cleaned first
+				q.Origin = vfPick(r, "https://spa.example", "null", "http://localhost:3000")
+				if r.chance(2, 3) {
+					q.Headers = map[string]string{"Access-Control-Request-Method": vfPick(r, "GET", "POST", "DELETE"), "Access-Control-Request-Headers": "authorization, x-user-groups"}
+				}
+			}
 			if refreshing && first {
 				first = false
 				t2 := vfPlainTok(vfPick(r, "user@example.com", "other@example.com"), 3600)
@@ -880,7 +931,11 @@ func vfGenC11(r *vfRand, id int) *vfWorldCase {
 	sc.RefreshLen = []int{0, 0, 2600, 9000}[r.intn(4)]
 	sc.NoRefresh = r.chance(1, 4)
 	acts := vfLogin(0, 0, "/app", sc)
-	for i := r.intn(3); i > 0; i-- {
+	if r.chance(1, 4) { // a browser that comes back after a while and logs out first thing: the stored ID token has expired meanwhile (or is otherwise stale)
+		acts = []vfAction{{Kind: "mint", Browser: 0, Mint: &vfMintSpec{Auth: true, Email: "user@example.com",
+			Tok: vfTokForState(r, vfPick(r, "expired", "expired", "valid", "bad_sig")), RefreshLen: []int{0, 24, 2600}[r.intn(3)], CreatedAgoSec: int64([]int{0, 3600, 80000}[r.intn(3)])}}}
+	}
+	for i := r.intn(3); i > 0 && acts[0].Kind != "mint"; i-- {
 		s2 := vfOkScript(vfSizedTok(r, vfSizes[r.intn(len(vfSizes))], true))
 		s2.Rotate = true
 		acts = append(acts, vfReqAct(0, 0, "GET", "/app", 1, func(q *vfReq) { q.Script = s2 }))
@@ -969,9 +1024,14 @@ func vfGenC15(r *vfRand, id int) *vfWorldCase {
 			q.Headers[vfPick(r, "X-Forwarded-Prefix", "X-Forwarded-Uri", "X-Original-Uri", "X-Replaced-Path")] = vfPick(r, "/app/../\\evil.example", "//evil.example", "/\\evil.example/x", "/portal", "https://evil.example/")
 		}
 	}
-	acts := []vfAction{vfReqAct(0, 0, "GET", uri, 1, mod), {Kind: "authorize", Browser: 0},
-		{Kind: "callback", Browser: 0, Script: vfOkScript(vfPlainTok("user@example.com", 3600))},
-		vfReqAct(0, 0, "GET", uri, 1, mod)}
+	acts := []vfAction{vfReqAct(0, 0, "GET", uri, 1, mod), {Kind: "authorize", Browser: 0}}
+	if r.chance(1, 3) { // the provider sends the browser back with one of the standard authorization errors while the login is pending
+		acts = append(acts, vfAction{Kind: "callback", Browser: 0, AcceptJS: r.chance(1, 4), StateMode: vfPick(r, "own", "own", "absent"), CodeMode: "absent",
+			ErrParam: vfPick(r, "login_required", "interaction_required", "consent_required", "temporarily_unavailable", "access_denied", "server_error",
+				"account_selection_required", "invalid_request"), ErrDesc: vfPick(r, "", "AADSTS50058: A silent sign-in request was sent but no user is signed in.", "try again")})
+	}
+	acts = append(acts, vfAction{Kind: "callback", Browser: 0, Script: vfOkScript(vfPlainTok("user@example.com", 3600))},
+		vfReqAct(0, 0, "GET", uri, 1, mod))
 	if r.chance(1, 2) {
 		acts = append(acts, vfReqAct(0, 0, "GET", vfLogoutPath, 3, mod))
 	}
@@ -1058,13 +1118,16 @@ func vfGenC16(r *vfRand, id int) *vfWorldCase {
 		}
 		a := vfAction{Kind: "callback", Browser: 0, AcceptJS: r.chance(1, 2), StateMode: vfPick(r, "own", "garbage", "absent"), CodeMode: vfPick(r, "own", "garbage", "absent"),
 			Script: &vfTokenScript{Kind: vfPick(r, "ok", "invalid_grant"), Spec: vfPlainTok(vfPick(r, "u@example.com", "u@evil.com"), 3600), NonceMode: vfPick(r, "", "other")}}
-		switch r.intn(4) {
+		switch r.intn(5) {
 		case 0:
 			a.ErrParam, a.ErrDesc = "access_denied", m()
 		case 1:
 			a.ErrParam = m()
 		case 2:
 			a.ErrParam, a.ErrDesc = m(), m()
+		case 3: // the long, multi-line descriptions some providers send (several kilobytes, markup and quotes inside)
+			a.ErrParam = vfPick(r, "access_denied", "invalid_request", "server_error")
+			a.ErrDesc = strings.Repeat("AADSTS50011: The reply URL <b>\"x\"</b> specified in the request doesn't match & isn't 'registered'. Trace ID: 0f2d\r\n", 20+r.intn(80))
 		}
 		acts = append(acts, a)
 	}
@@ -1155,8 +1218,13 @@ func vfGenC17(r *vfRand, id int) *vfWorldCase {
 	heal := vfOkScript(vfSizedTok(r, vfSizes[r.intn(len(vfSizes))], r.chance(2, 3)))
 	heal.NoRefresh = r.chance(1, 2)
 	heal.RefreshLen = []int{0, 2600, 5200}[r.intn(3)]
+	if r.chance(1, 3) {
+		// the browser goes on from wherever the last answer sent it: to the provider and back if that was a login redirect
+		// (nothing happens otherwise), and then follows the redirect the completed login gives it
+		acts = append(acts, vfAction{Kind: "authorize", Browser: 0}, vfAction{Kind: "callback", Browser: 0, Script: heal}, vfAction{Kind: "follow", Browser: 0})
+	}
 	acts = append(acts, vfLogin(0, 0, "/healed", heal)...)
-	acts = append(acts, vfReqAct(0, 0, "GET", "/healed", 4, nil))
+	acts = append(acts, vfAction{Kind: "follow", Browser: 0}, vfReqAct(0, 0, "GET", "/healed", 4, nil))
 	// "any header values": the headers the middleware derives scheme and host from, with values no URL parser accepts,
 	// on every kind of request of the logged-in browser (the logout builds URLs from them)
 	if r.chance(1, 2) {
@@ -1222,7 +1290,17 @@ func vfCorpusC17() []*vfWorldCase {
 	}
 	burst = append(burst, heal...)
 	many := &vfWorldCase{Kind: "corpus", Script: vfScript{Cfg: cfg, Browsers: 1, Actions: burst}}
-	return []*vfWorldCase{many, junk("m"), junk("a"), junk("r"), huge("m"), huge("a"), huge("r"), huge("a0"), old, long,
+	// a stale authorization response (bookmarked / reopened callback URL) in a browser whose cookies are unusable or gone; the
+	// browser then goes wherever it is sent: through a login if it is given one, and on to the redirect that login ends with
+	stale := func(prep ...vfAction) *vfWorldCase {
+		acts := append(prep, vfReqAct(0, 0, "GET", vfCallbackPath+"?code=stale-code&state=stale-state", 2, nil),
+			vfAction{Kind: "authorize", Browser: 0}, vfAction{Kind: "callback", Browser: 0, Script: vfOkScript(vfPlainTok("user@example.com", 3600))},
+			vfAction{Kind: "follow", Browser: 0}, vfAction{Kind: "follow", Browser: 0})
+		return &vfWorldCase{Kind: "corpus", Script: vfScript{Cfg: cfg, Browsers: 1, Actions: append(acts, heal...)}}
+	}
+	return []*vfWorldCase{many, stale(), stale(vfAction{Kind: "tamper", Browser: 0, Tamper: "junk", Name: "m"}, vfAction{Kind: "tamper", Browser: 0, Tamper: "junk", Name: "a"}),
+		stale(vfAction{Kind: "mint", Browser: 0, Mint: &vfMintSpec{Auth: true, Email: "user@example.com", Tok: vfTokForState(nil, "valid"), RefreshLen: 24, KeyB: true}}),
+		junk("m"), junk("a"), junk("r"), huge("m"), huge("a"), huge("r"), huge("a0"), old, long,
 		hdr("bad host", ""), hdr("%", "ht tp"), hdr("a.example:80a", "https"), hdr("[::1", ""),
 		chunkHeal(6000, 3000, "flip", "a0"), chunkHeal(6000, 3000, "junk", "a1"), chunkHeal(9000, 4400, "truncate", "a0"),
 		chunkHeal(3000, 6000, "junk", "a0"), chunkHeal(6000, 6000, "junk", "a2")}
